@@ -18,6 +18,7 @@ type c05Shape struct {
 	method    string
 	generates bool
 	status    bool
+	genOnce   bool   // the command writes the generated file only when it is missing (its mtime is not refreshed)
 	depGen    bool   // a dependency (re)generates one of the matched sources from seed.txt
 	excl      string // where the exclude entry sits: "after" (documented use) | "before" (excluded files are re-included by the later pattern)
 }
@@ -39,7 +40,9 @@ func (sh c05Shape) taskfile() string {
 		s += "    status: ['test -f ok.flag']\n"
 	}
 	s += "    cmds:\n      - 'echo run >> trace.log'\n"
-	if sh.generates {
+	if sh.generates && sh.genOnce {
+		s += "      - 'test -f out.txt || echo built > out.txt'\n"
+	} else if sh.generates {
 		s += "      - 'echo built > out.txt'\n"
 	}
 	if sh.depGen {
@@ -276,6 +279,7 @@ func c05Units(tier string) []*Unit {
 			c05Shape{name: "status", method: m, status: true, excl: "after"},
 			c05Shape{name: "exclude-first", method: m, excl: "before"},
 			c05Shape{name: "dep-regenerates-source", method: m, depGen: true, excl: "after"},
+			c05Shape{name: "generates-written-once", method: m, generates: true, genOnce: true, excl: "after"},
 		)
 	}
 	var us []*Unit
